@@ -32,10 +32,14 @@ COMPONENTS = {
 WORDS = ["++ b/src/other.rs", "let x = 1;", "fn f() {}", "// note", "x += 1;", "call(a, b);", "}", "{", "", "struct S;", "use a::b;", "y = x +1;", "a - b", "+plus", "-minus"]
 
 
+# texts that make a content line look like a file header once the diff marker stands in front of them
+LOOKALIKES = ["++ b/src/other.rs", "-- old note", "++ new note", "-- a/src/other.rs", "++ b/x/y/z/w.rs"]
+
+
 def gen_file(rng, ctx, lookalike=False):
     """returns (old_lines|None, new_lines|None, hunks[(os,oc,ns,nc, body_lines)])"""
     kind = rng.choice(["edit"] * 6 + ["new", "deleted", "noop"])
-    words = WORDS if lookalike else WORDS[1:]
+    words = (LOOKALIKES * 2 + WORDS[1:]) if lookalike else WORDS[1:]
     line = lambda: rng.choice(words) + (" // %d" % rng.below(100) if rng.chance(40) else "")
     if kind == "new":
         new = [line() for _ in range(rng.range(1, 6))]
@@ -103,7 +107,7 @@ def generate(rng, tier):
     lines = []
     expected = []  # (file, lo, hi)
     import re
-    lookalike = rng.chance(6)
+    lookalike = rng.chance(12)
     for name in names:
         old, new, hunks = gen_file(rng, ctx, lookalike)
         new_name = name
@@ -333,10 +337,10 @@ def execute(case):
 
 
 def _sfx(case):
-    if _header_lookalike(case["diff"]):
-        return "|added-line-looks-like-header"
     if case.get("quoted"):
         return "|quoted-path"
+    if _header_lookalike(case["diff"]):
+        return "|added-line-looks-like-header"
     return ""
 
 
